@@ -33,7 +33,7 @@ def describe(tier):
         'offsets': 'every fixed offset strictly between -24 h and +24 h at '
         'microsecond resolution (so offsets with a seconds part are '
         'included)',
-        'seconds / window': 'every integer number of seconds in +-10^9 '
+        'seconds / window': 'every integer number of seconds in +-3.2*10^11 '
         '(the exact-equality boundary and negative values included)',
         'override': 'set_time_override with a single instant, '
         'advance_time_delta by any delta within +-365 days at microsecond '
@@ -51,7 +51,11 @@ def describe(tier):
 ASSUME = ['datetime model (symx/symdt.py): instants as integer '
           'microseconds, fixed offsets; every path is replayed on the real '
           'datetime module', 'calendar.timegm = floor((instant - epoch) / '
-          '1 s) for model instants']
+          '1 s) for model instants',
+          'timedelta.total_seconds() = RNE(us / 10**6) (CPython int/int true '
+          'division is correctly rounded); int() of it and comparisons with '
+          'integers are encoded exactly in linear integer arithmetic '
+          '(symdt.SecFloat), other float operations on it use the FP term']
 
 if __name__ == '__main__':
     sys.exit(common.main('C12', build_jobs, H, ASSUME, describe))
